@@ -381,7 +381,7 @@ def drive_lifetimes(rec, quick):
         def delete(t, delete0=delete0):
             ev_del(("t", t))
             delete0(t)
-        for m in ([16, 64] if quick else [4, 16, 64, 1024]):
+        for m in ([64, 16, 4] if quick else [1024, 64, 16, 4, 8]):      # descending: a later, smaller table must not inherit a choice made for a larger one
             data = dbl(4 * m)
             first = {}
 
